@@ -1,5 +1,6 @@
 import Dasp.Props.C06
 import Dasp.Model.SrcQueue
+import Dasp.Model.OverBounded
 /-!
 # Cross-layer links: the idealised ring buffers used by other models ARE what C06 proves
 
@@ -42,5 +43,242 @@ example : (⟨[3, 1, 2], 1⟩ : Fixed Nat).Inv ∧ (⟨[3, 1, 2], 1⟩ : Fixed N
   constructor <;> decide
 
 
+
+
+/-! ## Simulation: Fork and Buffered over the concrete `Bounded` state refine the abstract models -/
+section sim
+open Dasp.OverBounded Dasp.SrcQueue
+
+/-- what `pop` does in terms of the abstraction, in match-friendly form -/
+theorem pop_cases (b : Bounded α) (h : b.Inv) :
+    (b.abs = [] ∧ (b.pop).2 = none) ∨ (∃ x r, b.abs = x :: r ∧ (b.pop).2 = some x ∧ (b.pop).1.abs = r) := by
+  have hq := Dasp.Props.C06.pop_refines b h
+  cases hb : b.abs with
+  | nil => left; exact ⟨rfl, by rw [hq.2, hb]; rfl⟩
+  | cons x r => right; exact ⟨x, r, rfl, by rw [hq.2, hb]; rfl, by rw [hq.1, hb]; rfl⟩
+
+theorem forkB_pull_sim (s : ForkB α) (h : s.b.Inv) :
+    (ForkB.pull s).1 = (Dasp.Fork.pull s.abs).1 ∧ (ForkB.pull s).2.abs = (Dasp.Fork.pull s.abs).2 ∧ (ForkB.pull s).2.b.Inv := by
+  have hl := bounded_is_srcQueue s.b h (s.src.next).1
+  refine ⟨rfl, ?_, hl.2.2.2.2.2.1⟩
+  simp only [ForkB.pull, Dasp.Fork.pull, ForkB.abs, hl.1, hl.2.2.2.2.2.2.2.1]
+
+/-- **C12 over the real ring-buffer state.** One `next` of either branch on the concrete state
+    returns the same frame as on the abstract state and commutes with the abstraction, for every
+    backing slice, `start` offset and queue content satisfying `from_raw_parts`' assertion -/
+theorem forkB_next_sim (s : ForkB α) (h : s.b.Inv) (me : Bool) :
+    (ForkB.next s me).1 = (Dasp.Fork.next s.abs me).1 ∧ (ForkB.next s me).2.abs = (Dasp.Fork.next s.abs me).2 ∧
+    (ForkB.next s me).2.b.Inv := by
+  unfold ForkB.next Dasp.Fork.next
+  by_cases hp : s.pending = me
+  · have habs : s.abs.pending = me := hp
+    simp only [hp, habs, if_true]
+    rcases pop_cases s.b h with ⟨he, hn⟩ | ⟨x, r, he, hs, hr⟩
+    · have hq : s.abs.q = [] := he
+      rcases hpop : s.b.pop with ⟨b', o⟩
+      rw [hpop] at hn; simp only at hn; subst hn
+      simp only [hq]
+      have e : ({ s with pending := !me } : ForkB α).abs = ⟨s.abs.src, [], s.abs.cap, !me⟩ := by
+        simp [ForkB.abs, he]
+      rw [← e]
+      exact forkB_pull_sim { s with pending := !me } h
+    · have hq : s.abs.q = x :: r := he
+      rcases hpop : s.b.pop with ⟨b', o⟩
+      rw [hpop] at hs hr; simp only at hs hr; subst hs
+      simp only [hq]
+      refine ⟨by first | rfl | trivial, ?_, ?_⟩
+      · simp only [ForkB.abs, hr]
+        have := (bounded_is_srcQueue s.b h x).2.2.2.2.2.2.2.2
+        rw [hpop] at this; simp only at this; rw [this]
+      · have := Dasp.Props.C06.pop_inv s.b h; rw [hpop] at this; exact this
+  · have habs : ¬ s.abs.pending = me := hp
+    simp only [hp, habs, if_false]
+    exact forkB_pull_sim s h
+
+theorem forkB_pending_sim (s : ForkB α) (me : Bool) :
+    ForkB.pendingFrames s me = Dasp.Fork.pendingFrames s.abs me := by
+  unfold ForkB.pendingFrames Dasp.Fork.pendingFrames
+  by_cases hp : s.pending = me
+  · have hp' : s.abs.pending = me := hp
+    rw [if_pos hp, if_pos hp', (Dasp.Props.C06.len_agrees s.b).1]; rfl
+  · have hp' : ¬ s.abs.pending = me := hp
+    rw [if_neg hp, if_neg hp']
+
+theorem forkB_step_sim (s : ForkB α) (h : s.b.Inv) (o : Dasp.Fork.Op) :
+    (ForkB.step s o).1 = (Dasp.Fork.step s.abs o).1 ∧ (ForkB.step s o).2.abs = (Dasp.Fork.step s.abs o).2 ∧
+    (ForkB.step s o).2.b.Inv := by
+  cases o with
+  | pull me =>
+    obtain ⟨h1, h2, h3⟩ := forkB_next_sim s h me
+    refine ⟨?_, h2, h3⟩
+    have h4 : (ForkB.next s me).2.src = (Dasp.Fork.next s.abs me).2.src := congrArg Dasp.Fork.St.src h2
+    simp only [ForkB.step, Dasp.Fork.step, Dasp.Fork.look, forkB_pending_sim, h1, h2, h4]
+  | resplitRef => exact ⟨by simp [ForkB.step, Dasp.Fork.step, Dasp.Fork.look, Dasp.Fork.byRef, forkB_pending_sim]; rfl, rfl, h⟩
+  | resplitRc => exact ⟨by simp [ForkB.step, Dasp.Fork.step, Dasp.Fork.look, Dasp.Fork.byRc, forkB_pending_sim]; rfl, rfl, h⟩
+  | drop me => exact ⟨by simp [ForkB.step, Dasp.Fork.step, Dasp.Fork.look, Dasp.Fork.dropBranch, forkB_pending_sim]; rfl, rfl, h⟩
+
+/-- **every observation of every schedule** (frames, both pending counts, pull counter) is the same
+    on the concrete ring-buffer state as on the abstract queue: C12's theorems transfer verbatim -/
+theorem forkB_trace_sim (ops : List Dasp.Fork.Op) (s : ForkB α) (h : s.b.Inv) :
+    ForkB.trace s ops = Dasp.Fork.trace s.abs ops := by
+  induction ops generalizing s with
+  | nil => rfl
+  | cons o r ih =>
+    obtain ⟨h1, h2, h3⟩ := forkB_step_sim s h o
+    simp only [ForkB.trace, Dasp.Fork.trace, h1, ih _ h3, h2]
+
+/-! ### Buffered -/
+
+theorem bufB_pullPush_sim (s : BufB α) (h : s.b.Inv) :
+    (BufB.pullPush s).abs = Dasp.Buffered.pullPush s.abs ∧ (BufB.pullPush s).b.Inv ∧ (BufB.pullPush s).b.maxLen = s.b.maxLen := by
+  have hl := bounded_is_srcQueue s.b h (s.src.next).1
+  refine ⟨?_, hl.2.2.2.2.2.1, hl.2.2.2.2.2.2.2.1⟩
+  simp only [BufB.pullPush, Dasp.Buffered.pullPush, BufB.abs, hl.1, hl.2.2.2.2.2.2.2.1]
+
+theorem bufB_fill_sim (n : Nat) (s : BufB α) (h : s.b.Inv) :
+    (BufB.fill n s).abs = Dasp.Buffered.fill n s.abs ∧ (BufB.fill n s).b.Inv ∧ (BufB.fill n s).b.maxLen = s.b.maxLen := by
+  induction n generalizing s with
+  | zero => exact ⟨rfl, h, rfl⟩
+  | succ n ih =>
+    obtain ⟨h1, h2, h3⟩ := bufB_pullPush_sim s h
+    obtain ⟨i1, i2, i3⟩ := ih (BufB.pullPush s) h2
+    exact ⟨by simp only [BufB.fill, Dasp.Buffered.fill, i1, h1], i2, by simp only [BufB.fill]; rw [i3, h3]⟩
+
+theorem bufB_refill_sim (s : BufB α) (h : s.b.Inv) :
+    (BufB.refill s).abs = Dasp.Buffered.refill s.abs ∧ (BufB.refill s).b.Inv ∧ (BufB.refill s).b.maxLen = s.b.maxLen :=
+  bufB_fill_sim s.b.maxLen s h
+
+/-- pop on the concrete state, in terms of the abstract queue -/
+theorem bufB_pop_sim (s : BufB α) (h : s.b.Inv) :
+    (s.abs.q = [] ∧ (s.b.pop).2 = none) ∨
+    (∃ x r, s.abs.q = x :: r ∧ (s.b.pop).2 = some x ∧ ({ s with b := (s.b.pop).1 } : BufB α).abs = { s.abs with q := r } ∧ (s.b.pop).1.Inv) := by
+  rcases pop_cases s.b h with ⟨he, hn⟩ | ⟨x, r, he, hs, hr⟩
+  · left; exact ⟨he, hn⟩
+  · right
+    refine ⟨x, r, he, hs, ?_, Dasp.Props.C06.pop_inv s.b h⟩
+    simp only [BufB.abs, hr, Dasp.Props.C06.pop_maxLen]
+
+/-- **C14 over the real ring-buffer state**: `Buffered::next` -/
+theorem bufB_next_sim (s : BufB α) (h : s.b.Inv) :
+    (BufB.next s).1 = (Dasp.Buffered.next s.abs).1 ∧ (BufB.next s).2.abs = (Dasp.Buffered.next s.abs).2 ∧ (BufB.next s).2.b.Inv := by
+  unfold BufB.next Dasp.Buffered.next
+  rcases bufB_pop_sim s h with ⟨he, hn⟩ | ⟨x, r, he, hs, ha, hi⟩
+  · rcases hpop : s.b.pop with ⟨b', o⟩
+    rw [hpop] at hn; simp only at hn; subst hn
+    simp only [he]
+    obtain ⟨r1, r2, _⟩ := bufB_refill_sim s h
+    rcases bufB_pop_sim (BufB.refill s) r2 with ⟨he2, hn2⟩ | ⟨x, r, he2, hs2, ha2, hi2⟩
+    · rcases hpop2 : (BufB.refill s).b.pop with ⟨b2, o2⟩
+      rw [hpop2] at hn2; simp only at hn2; subst hn2
+      rw [r1] at he2
+      simp only [he2]
+      exact ⟨by first | rfl | trivial, r1, r2⟩
+    · rcases hpop2 : (BufB.refill s).b.pop with ⟨b2, o2⟩
+      rw [hpop2] at hs2 ha2 hi2; simp only at hs2 ha2 hi2; subst hs2
+      rw [r1] at he2 ha2
+      simp only [he2]
+      exact ⟨by first | rfl | trivial, ha2, hi2⟩
+  · rcases hpop : s.b.pop with ⟨b', o⟩
+    rw [hpop] at hs ha hi; simp only at hs ha hi; subst hs
+    simp only [he]
+    exact ⟨by first | rfl | trivial, ha, hi⟩
+
+theorem bufB_beginFrames_sim (s : BufB α) (h : s.b.Inv) :
+    (BufB.beginFrames s).abs = Dasp.Buffered.beginFrames s.abs ∧ (BufB.beginFrames s).b.Inv := by
+  have hl : s.b.length = s.abs.q.length := (Dasp.Props.C06.len_agrees s.b).1
+  unfold BufB.beginFrames Dasp.Buffered.beginFrames
+  rw [hl]
+  split
+  · exact ⟨(bufB_refill_sim s h).1, (bufB_refill_sim s h).2.1⟩
+  · exact ⟨rfl, h⟩
+
+theorem bufB_iterNext_sim (s : BufB α) (h : s.b.Inv) :
+    (BufB.iterNext s).1 = (Dasp.Buffered.iterNext s.abs).1 ∧ (BufB.iterNext s).2.abs = (Dasp.Buffered.iterNext s.abs).2 ∧
+    (BufB.iterNext s).2.b.Inv := by
+  unfold BufB.iterNext Dasp.Buffered.iterNext
+  rcases bufB_pop_sim s h with ⟨he, hn⟩ | ⟨x, r, he, hs, ha, hi⟩
+  · rcases hpop : s.b.pop with ⟨b', o⟩
+    rw [hpop] at hn; simp only at hn; subst hn
+    simp only [he]; exact ⟨by first | rfl | trivial, by first | rfl | trivial, h⟩
+  · rcases hpop : s.b.pop with ⟨b', o⟩
+    rw [hpop] at hs ha hi; simp only at hs ha hi; subst hs
+    simp only [he]; exact ⟨by first | rfl | trivial, ha, hi⟩
+
+/-- `is_exhausted` agrees: so C14's exhaustion and padding theorems transfer to every `start` offset -/
+theorem bufB_isExhausted_sim (s : BufB α) : BufB.isExhausted s = Dasp.Buffered.isExhausted s.abs := by
+  simp [BufB.isExhausted, Dasp.Buffered.isExhausted, BufB.abs, (Dasp.Props.C06.len_agrees s.b).1]
+
+theorem bufB_iterN_sim (k : Nat) (s : BufB α) (h : s.b.Inv) :
+    (BufB.iterN k s).1 = (Dasp.Buffered.iterN k s.abs).1 ∧ (BufB.iterN k s).2.abs = (Dasp.Buffered.iterN k s.abs).2 ∧
+    (BufB.iterN k s).2.b.Inv := by
+  induction k generalizing s with
+  | zero => exact ⟨rfl, rfl, h⟩
+  | succ k ih =>
+    obtain ⟨h1, h2, h3⟩ := bufB_iterNext_sim s h
+    obtain ⟨i1, i2, i3⟩ := ih (BufB.iterNext s).2 h3
+    simp only [BufB.iterN, Dasp.Buffered.iterN, h1, i1, i2, h2]
+    exact ⟨trivial, trivial, by simpa [BufB.iterN] using i3⟩
+
+theorem bufB_untilExhausted_sim (fuel : Nat) (s : BufB α) (h : s.b.Inv) :
+    (BufB.untilExhausted fuel s).1 = (Dasp.Buffered.untilExhausted fuel s.abs).1 ∧
+    (BufB.untilExhausted fuel s).2.abs = (Dasp.Buffered.untilExhausted fuel s.abs).2 ∧
+    (BufB.untilExhausted fuel s).2.b.Inv := by
+  induction fuel generalizing s with
+  | zero => exact ⟨rfl, rfl, h⟩
+  | succ f ih =>
+    simp only [BufB.untilExhausted, Dasp.Buffered.untilExhausted, bufB_isExhausted_sim]
+    split
+    · exact ⟨rfl, rfl, h⟩
+    · obtain ⟨h1, h2, h3⟩ := bufB_next_sim s h
+      obtain ⟨i1, i2, i3⟩ := ih (BufB.next s).2 h3
+      simp only [h1, i1, i2, h2]
+      exact ⟨trivial, trivial, i3⟩
+
+theorem bufB_exec_sim (s : BufB α) (h : s.b.Inv) (o : Dasp.Buffered.Op) :
+    (BufB.exec s o).1 = (Dasp.Buffered.exec s.abs o).1 ∧ (BufB.exec s o).2.abs = (Dasp.Buffered.exec s.abs o).2 ∧
+    (BufB.exec s o).2.b.Inv := by
+  have hl : ∀ t : BufB α, t.b.length = t.abs.q.length := fun t => (Dasp.Props.C06.len_agrees t.b).1
+  cases o with
+  | next =>
+    obtain ⟨h1, h2, h3⟩ := bufB_next_sim s h
+    simp only [BufB.exec, Dasp.Buffered.exec, h1, h2]; exact ⟨trivial, trivial, h3⟩
+  | frames k =>
+    obtain ⟨b1, b2⟩ := bufB_beginFrames_sim s h
+    have := bufB_iterN_sim k _ b2
+    simp only [BufB.exec, Dasp.Buffered.exec, ← b1]; exact this
+  | drain =>
+    obtain ⟨b1, b2⟩ := bufB_beginFrames_sim s h
+    have := bufB_iterN_sim (BufB.beginFrames s).b.length _ b2
+    simp only [BufB.exec, Dasp.Buffered.exec, ← b1, ← hl]; exact this
+  | untilExhausted =>
+    have hf : BufB.ueFuel s = Dasp.Buffered.ueFuel s.abs := by
+      simp only [BufB.ueFuel, Dasp.Buffered.ueFuel, hl]; rfl
+    obtain ⟨u1, u2, u3⟩ := bufB_untilExhausted_sim (BufB.ueFuel s) s h
+    simp only [BufB.exec, Dasp.Buffered.exec, ← hf, u1, u2]; exact ⟨trivial, trivial, u3⟩
+  | look => exact ⟨rfl, rfl, h⟩
+
+/-- **C14 over the real ring-buffer state, every observation of every operation sequence**: outputs,
+    pull counter and `is_exhausted` are those of the abstract model — for any backing slice, any
+    pre-filled content and any internal `start` offset (the part of C14's statement that
+    `Props/C14.lean` alone delegated to C06) -/
+theorem bufB_trace_sim (ops : List Dasp.Buffered.Op) (s : BufB α) (h : s.b.Inv) :
+    BufB.trace s ops = Dasp.Buffered.trace s.abs ops := by
+  induction ops generalizing s with
+  | nil => rfl
+  | cons o r ih =>
+    obtain ⟨h1, h2, h3⟩ := bufB_exec_sim s h o
+    have hsrc : (BufB.exec s o).2.src = (Dasp.Buffered.exec s.abs o).2.src := congrArg Dasp.Buffered.St.src h2
+    have hstep : (BufB.step s o).1 = (Dasp.Buffered.step s.abs o).1 := by
+      simp only [BufB.step, Dasp.Buffered.step, Dasp.Buffered.look, h1, hsrc, bufB_isExhausted_sim, h2]
+    have hst2 : (BufB.step s o).2.abs = (Dasp.Buffered.step s.abs o).2 := h2
+    simp only [BufB.trace, Dasp.Buffered.trace, hstep]
+    rw [ih (BufB.step s o).2 h3, hst2]
+
+end sim
+
+/-- non-vacuity: a wrapped, partly filled ring buffer state under a fork -/
+example : (⟨⟨[1, 2, 3], 7, 0⟩, ⟨[30, 10, 20], 1, 2⟩, true⟩ : Dasp.OverBounded.ForkB Nat).b.Inv ∧
+    (Dasp.OverBounded.ForkB.next ⟨⟨[1, 2, 3], 7, 0⟩, ⟨[30, 10, 20], 1, 2⟩, true⟩ true).1 = 10 := by
+  constructor <;> decide
 
 end Dasp.Props.LinkFork
